@@ -5,6 +5,8 @@
   stacks and the writer are total functions of the model (`Stack.lean`), see the theorems below.
 -/
 import BibVerif.Lemmas.NoRaise
+import BibVerif.Lemmas.StrBlocks
+import BibVerif.Props.C06
 namespace Bib.C01
 open Bib
 
@@ -37,6 +39,48 @@ theorem eof_in_block_is_failed_block (s : St) (he : s.err = none)
   rw [he]
   simp only []
   exact ⟨s.out.reverse, by simp⟩
+
+/-! ### the whole default pipeline (models of Library.add, ResolveStringReferences,
+RemoveEnclosing, AddEnclosing and the writer composed in `Pipeline.lean`) -/
+
+open Bib.Pipeline in
+/-- **`parse_string(text)` never raises**, for every text: the splitter returns blocks
+(`split_never_raises`), every value it produces is a `str` (`split_strBlocks`), `Library.add`'s
+asserts cannot fail, string resolution substitutes `str` values only, and `RemoveEnclosing` —
+whose only failure mode is a non-`str` value — therefore succeeds.  The values of the returned
+library are all `str`. -/
+theorem parse_total (s : Str) : ∃ L, parseDefault P s = .ok L ∧ StrBlocks L :=
+  parseDefault_total P s
+
+open Bib.Pipeline in
+/-- **`write_string(parse_string(text))` never raises**, for every text and every format whose
+failed-block comment is a valid template (the default one is): the default unparse stack
+(`AddEnclosing` in copy mode) succeeds on the parsed library because every value is a `str` and the
+recorded `removed_enclosing` metadata are dicts, and the writer succeeds on string-valued blocks
+(`C06.write_total`), failed blocks included (they are written from their raw text). -/
+theorem write_total (s : Str) (L : List Block) (h : parseDefault P s = .ok L)
+    (F : Writer.BibtexFormat) (ht : ∀ n, ∃ c, Writer.formatN n F.parsingFailedComment = .ok c) :
+    ∃ t, writeDefault P F L = .ok t := by
+  obtain ⟨hs, hm⟩ := parseDefault_writable P s L h
+  obtain ⟨L', hL', hs'⟩ := addLib_default_ok P L hs hm
+  simp only [writeDefault, hL']
+  apply Bib.C06.write_total P F _ _ ht
+  intro it hit
+  simp only [List.mem_map] at hit
+  obtain ⟨b, hb, rfl⟩ := hit
+  exact writable_of_strBlock b ((addAll_libStr L' hs').blocks b hb)
+
+/-- the default format's comment is a valid template -/
+theorem default_comment_ok (n : Nat) :
+    ∃ c, Writer.formatN n ({} : Writer.BibtexFormat).parsingFailedComment = .ok c :=
+  ⟨_, Bib.C06.failed_comment_n n "% WARNING Parsing failed for the following ".toList " lines.".toList
+    (by intro c hc; simp at hc; rcases hc with rfl | rfl | rfl | rfl | rfl | rfl | rfl | rfl | rfl | rfl | rfl | rfl | rfl | rfl | rfl | rfl | rfl | rfl | rfl | rfl | rfl | rfl | rfl | rfl | rfl | rfl | rfl | rfl | rfl | rfl | rfl | rfl | rfl | rfl | rfl | rfl | rfl | rfl | rfl | rfl | rfl | rfl | rfl <;> decide)
+    (by intro c hc; simp at hc; rcases hc with rfl | rfl | rfl | rfl | rfl | rfl | rfl <;> decide)⟩
+
+/-- failed blocks carry an error class and their raw text by construction (`Block.failed why line raw`,
+the wrappers keep the wrapped block); the parse keeps them in the library: the blocks the splitter
+handed over are all still there (`C09.count_preserved`). -/
+theorem failed_blocks_are_values (b : Block) (_h : b.isFailed = true) : ∃ r, b.raw = r := ⟨_, rfl⟩
 
 /-- non-vacuity: an unterminated entry inside garbage, evaluated by the kernel -/
 example : (splitToks asciiChars
